@@ -54,6 +54,7 @@ def class_sweep(chk, rng, per_vector, all_entry_points=False):
     vectors = sweep.library_vectors()
     evals = 0
     walked = 0
+    nested = 0
     kinds = {}
     by_module = {}
     for cls in vectors:
@@ -85,7 +86,22 @@ def class_sweep(chk, rng, per_vector, all_entry_points=False):
                     walked += 1
                     for ep, key, line, e in leaks(cls, b, False):
                         yield cls, name, b, ep, key, line, e
-    chk.coverage['class_sweep'] = {'classes': len(vectors), 'buffers': evals, 'code_point_walk': walked}
+        # structures nested into themselves (a certificate in the place of a certificate's signing key, ...): where a shallow
+        # nesting is accepted, a deep one must be refused or parsed, not run into the interpreter's recursion limit
+        if name.startswith('cryptoparser.ssh.'):
+            for v in sorted((x for x in vectors[cls] if len(x) >= 40), key=len)[:2]:
+                for i, shallow in sweep.self_nested(v, 6):
+                    try:
+                        cls.parse_immutable(shallow)
+                    except Exception:  # pylint: disable=broad-except
+                        continue
+                    nested += 1
+                    for _i, deep in sweep.self_nested(v[:i] + v[i:], 300, limit=64):
+                        if _i != i:
+                            continue
+                        for ep, key, line, e in leaks(cls, deep, False):
+                            yield cls, name, deep, ep, key, line, e
+    chk.coverage['class_sweep'] = {'classes': len(vectors), 'buffers': evals, 'code_point_walk': walked, 'self_nested_structures': nested}
 
 
 def run(chk):
